@@ -239,6 +239,7 @@ struct Shared {
     log: Mutex<Vec<(usize, usize, usize, usize)>>, // sys, enter, exit, round
     conflicts: Mutex<Vec<String>>,
     round: AtomicUsize,
+    made: Mutex<Vec<(usize, usize, u32, i32)>>, // sys, round, handle of an entity the system created
 }
 
 fn ridx(n: &str) -> usize {
@@ -254,6 +255,23 @@ struct Meta {
 }
 
 impl Meta {
+    /// the system creates a few entities through the shared entities resource (other systems of the
+    /// stage may be doing the same at this moment), notes the handles and deletes them again: the
+    /// deletions take effect at the maintain that follows the round, so that the next round recycles
+    fn churn(&self, ents: &Entities) {
+        let round = self.sh.round.load(Ordering::SeqCst);
+        let es: Vec<Entity> = (0..3).map(|_| ents.create()).collect();
+        {
+            let mut made = self.sh.made.lock().unwrap();
+            for e in &es {
+                made.push((self.id, round, e.id(), e.gen().id()));
+            }
+        }
+        for e in es {
+            let _ = ents.delete(e);
+        }
+    }
+
     fn run(&self) {
         self.run_with(|| {})
     }
@@ -295,6 +313,41 @@ impl Meta {
     }
 }
 
+/// installed at the library's yield points (cfg specs_verif) while a dispatch runs: now and then the
+/// thread gives way or spins for a moment between two atomic steps
+fn jitter(_site: u32) {
+    thread_local!(static RNG: std::cell::Cell<u64> = std::cell::Cell::new(0x9E3779B97F4A7C15));
+    let x = RNG.with(|c| {
+        let mut x = c.get() ^ (std::thread::current().id().as_u64_compat());
+        x ^= x << 13;
+        x ^= x >> 7;
+        x ^= x << 17;
+        c.set(x);
+        x
+    });
+    match x % 8 {
+        0 => std::thread::yield_now(),
+        1 | 2 => {
+            for _ in 0..(x >> 8) % 400 {
+                std::hint::spin_loop();
+            }
+        }
+        _ => {}
+    }
+}
+
+trait TidCompat {
+    fn as_u64_compat(&self) -> u64;
+}
+impl TidCompat for std::thread::ThreadId {
+    fn as_u64_compat(&self) -> u64 {
+        use std::hash::{Hash, Hasher};
+        let mut h = std::collections::hash_map::DefaultHasher::new();
+        self.hash(&mut h);
+        h.finish() | 1
+    }
+}
+
 /// queue many no-op lazy actions in a tight loop (several systems of one stage do this at once)
 fn push_lazy(lazy: &LazyUpdate, spin: u32) {
     for _ in 0..(400 + spin as usize * 400) {
@@ -331,18 +384,16 @@ shape!(S2, (ReadStorage<'a, DA>, ReadStorage<'a, DB>), ["Entities", "A", "B"], [
 shape!(S3, (WriteStorage<'a, DA>, ReadStorage<'a, DB>), ["Entities", "B"], ["A"]);
 shape!(S4, (ReadStorage<'a, DA>, WriteStorage<'a, DB>), ["Entities", "A"], ["B"]);
 shape!(S5, (WriteStorage<'a, DB>, WriteStorage<'a, DC>), ["Entities"], ["B", "C"]);
-shape!(S6, (Entities<'a>, ReadStorage<'a, DC>), ["Entities", "C"], [], |d, _m| {
-    // leaves a deferred deletion pending until the maintain that follows the round
-    let e = d.0.create();
-    let _ = d.0.delete(e);
+shape!(S6, (Entities<'a>, ReadStorage<'a, DC>), ["Entities", "C"], [], |d, m| {
+    // leaves deferred deletions pending until the maintain that follows the round
+    m.churn(&d.0);
 });
 shape!(S7, (Entities<'a>, WriteStorage<'a, DC>, Read<'a, LazyUpdate>), ["Entities", "Lazy"], ["C"], |d, m| push_lazy(&d.2, m.spin));
 shape!(S8, (WriteStorage<'a, DZ>,), ["Entities"], ["Z"]);
 shape!(S9, (ReadStorage<'a, DZ>,), ["Entities", "Z"], []);
 shape!(S10, (specs::Write<'a, EntitiesRes>,), [], ["Entities"]);
-shape!(S11, (ReadStorage<'a, DB>, ReadStorage<'a, DC>, Entities<'a>), ["Entities", "B", "C"], [], |d, _m| {
-    let e = d.2.create();
-    let _ = d.2.delete(e);
+shape!(S11, (ReadStorage<'a, DB>, ReadStorage<'a, DC>, Entities<'a>), ["Entities", "B", "C"], [], |d, m| {
+    m.churn(&d.2);
     std::hint::black_box((&d.0, &d.1).join().count());
 });
 shape!(S12, (WriteStorage<'a, DF>, ReadStorage<'a, DA>), ["Entities", "A"], ["F"]);
@@ -376,7 +427,10 @@ fn dispatch(script: &Value) -> Value {
         log: Mutex::new(vec![]),
         conflicts: Mutex::new(vec![]),
         round: AtomicUsize::new(0),
+        made: Mutex::new(vec![]),
     });
+    // widen the windows between the atomic steps of shared-access creation / deletion
+    specs::verif::set_yield_hook(Some(jitter as fn(u32)));
     let mut world = new_world();
     let mut sys_js = vec![];
     let mut stage = 0usize;
@@ -430,10 +484,12 @@ fn dispatch(script: &Value) -> Value {
             }
         }
     });
+    specs::verif::set_yield_hook(None);
+    let made: Vec<Value> = sh.made.lock().unwrap().iter().map(|(s, r, i, g)| json!({"sys": s, "round": r, "h": [i, g]})).collect();
     let log: Vec<Value> = sh.log.lock().unwrap().iter().map(|(s, e, x, r)| json!({"sys": s, "enter": e, "exit": x, "round": r})).collect();
     let conflicts = sh.conflicts.lock().unwrap().clone();
     json!({"op":"Dispatch","tid":script["tid"],"threads":threads,"rounds":rounds,"systems":sys_js,"log":log,
-           "conflicts":conflicts,"panic": r.err().unwrap_or_default()})
+           "conflicts":conflicts,"made":made,"panic": r.err().unwrap_or_default()})
 }
 
 pub fn run_file(input: &str, out: &mut Out) {
